@@ -46,6 +46,8 @@ def run(ctx, repo):
     ctx.call(R6B.r_assert_inventory, repo, ('reader', 'scanner', 'parser', 'composer'))
     ctx.call(R6B.r_finally_bound, repo)
     ctx.call(R6B.r_uri_escapes_joined, repo)
+    ctx.call(R6B.r_token_value_format, repo)
+    ctx.call(R6B.r_recursion_inventory, repo)
 
 
 if __name__ == '__main__':
